@@ -1460,30 +1460,42 @@ def rule_eq_dunder(run: Run, prog: Program) -> int:
     root = prog.find_cls("ProjectiveTensor")
     if root is None:
         return 0
+    from geolint import callgraph
+
+    cg = callgraph.build(prog) if "_cg" not in prog.__dict__ else prog.__dict__["_cg"]
+    prog.__dict__["_cg"] = cg
+    target = prog.find_func("is_multiple")
     n = 0
+    verdict_of: dict[str, tuple] = {}
     for c in prog.concrete_subclasses(root):
         eq = prog.lookup(c, "__eq__")
         n += 1
         if eq is None:
             run.add("E5.eqdunder", c.name, "__eq__", VIOLATION, "no __eq__: identity comparison", c.loc)
             continue
-        cur, ok, seen = eq, False, set()
-        while cur is not None and cur.qualname not in seen:
-            seen.add(cur.qualname)
-            src = ast.unparse(cur.node)
-            if "is_multiple(" in src:
-                ok = True
-                break
-            if "super().__eq__" in src and cur.cls is not None:
-                cur = prog.lookup_after(c, cur.cls, "__eq__")
+        if eq.qualname not in verdict_of:
+            reach = cg.reachable(eq)
+            if target is not None and target.qualname in reach:
+                verdict_of[eq.qualname] = (PROVEN, f"resolves to {eq.short}, which reaches the scalar-multiple test is_multiple")
             else:
-                break
-        if ok:
-            run.add("E5.eqdunder", c.name, "__eq__", PROVEN, f"resolves to {eq.short}, which decides through is_multiple", eq.loc)
-        else:
-            run.add("E5.eqdunder", c.name, "__eq__", VIOLATION,
-                    f"{c.name}.__eq__ resolves to {eq.short}, which never reaches the scalar-multiple test: non-zero multiples of the same "
-                    f"coordinates compare unequal", eq.loc)
+                # does anything in its call tree compare coordinates directly?
+                direct = False
+                for q in reach:
+                    f = prog.functions.get(q)
+                    if f is None or f.cls is None or not prog.is_subclass(f.cls, prog.cls("Tensor")) and f is not eq:
+                        continue
+                    if f.name != "__eq__":
+                        continue
+                    src = ast.unparse(f.node)
+                    if "allclose(" in src or "array_equal(" in src or "isclose(" in src:
+                        direct = True
+                if direct:
+                    verdict_of[eq.qualname] = (VIOLATION, f"resolves to {eq.short}, whose call tree compares coordinates (allclose/isclose) and never "
+                                                          f"reaches the scalar-multiple test: non-zero multiples of the same coordinates compare unequal")
+                else:
+                    verdict_of[eq.qualname] = (UNDECIDED, f"resolves to {eq.short}: neither is_multiple nor a coordinate comparison found in its call tree")
+        v, msg = verdict_of[eq.qualname]
+        run.add("E5.eqdunder", c.name, "__eq__", v, f"{c.name}.__eq__ {msg}", eq.loc)
     return n
 
 
